@@ -213,9 +213,13 @@ def body_symptom(e, o):
 
 
 class Judge:
-    def __init__(self, ctx):
+    """First pass: every verdict is only a *suspect* (self.suspects). run() re-runs representatives of
+    each suspect key alone, in a fresh process, with generous bounds; only a key that shows up again
+    there is reported (confirmed=True marks verdicts that already went through an isolated re-run)."""
+    def __init__(self, ctx, quiet=False):
         self.ctx = ctx
-        self.counts = {}
+        self.quiet = quiet        # re-judging an isolated re-run: no evidence counters
+        self.suspects = []        # dict(key, what, detail, st, rec, mode, flavor, confirmed)
 
     def viol(self, key, what, st, rec, mode, flavor, **extra):
         d = dict(stream=st.id, mode=mode, flavor=flavor, kind=st.kind, hclass=st.hclass, note=st.note, seed=self.ctx.seed, tier=self.ctx.tier,
@@ -225,20 +229,23 @@ class Judge:
             d["observed"] = rec.get("ref")
             if rec.get("diffs"):
                 d["diffs"] = rec["diffs"][:2]
-        self.ctx.violation(key, what, d)
+        self.suspects.append(dict(key=key, what=what, detail=d, st=st, rec=rec, mode=mode, flavor=flavor,
+                                  confirmed=bool(extra.get("confirmed"))))
 
     def count(self, name, n=1):
-        self.ctx.obs(name, n)
+        if not self.quiet:
+            self.ctx.obs(name, n)
 
     # ---- server
     def server(self, st, rec, mode, flavor):
         side = "server"
         ref = rec["ref"]
-        nv0 = len(self.ctx.violations)
+        nv0 = len(self.suspects)
         cap = g.SERVER_CAP
         if ref.get("exc"):
             if ref["exc"].startswith("HARNESS:"):
-                self.ctx.inconcl("%s %s: %s" % (mode, st.id, ref["exc"]))
+                if not self.quiet:
+                    self.ctx.inconcl("%s %s: %s" % (mode, st.id, ref["exc"]))
                 return
             self.viol("C15:server:%s:exception-escaped-data-callback" % (st.hclass or st.cls()),
                       "exception escaped HttpServer::handleIncomingData: %s" % ref["exc"], st, rec, mode, flavor)
@@ -287,14 +294,14 @@ class Judge:
             for o in extras[:3]:
                 self.viol("C15:server:%s:phantom-request" % st.cls(), "handler invoked for a request that was never sent: %s %s (%d body bytes)"
                           % (o["m"], o["p"], o["bl"]), st, rec, mode, flavor)
-            if not lost and not ref["sync"] and len(self.ctx.violations) == nv0:
+            if not lost and not ref["sync"] and len(self.suspects) == nv0:
                 self.viol("C15:server:after-%s:next-request-lost" % exp[-1]["cls"],
                           "the request following a valid %s message on the same connection was not delivered (closed=%s, statuses=%s): bytes of the message were left in / taken from the buffer"
                           % (exp[-1]["cls"], ref["closed"], ref["st"]), st, rec, mode, flavor)
             elif not lost and not ref["sync"]:
                 self.count("sentinel_lost_on_already_violating_case")
             if rec["ndiff"]:
-                if len(self.ctx.violations) == nv0:
+                if len(self.suspects) == nv0:
                     self.viol("C15:server:%s:cut-dependence" % st.cls(),
                               "%d of %d segmentations of the same valid stream produced different requests than the unsegmented stream"
                               % (rec["ndiff"], rec["nseg"]), st, rec, mode, flavor)
@@ -315,12 +322,13 @@ class Judge:
                           % st.note, st, rec, mode, flavor)
             else:
                 self.count("hostile_rejected")
-            if rec["ndiff"] and len(self.ctx.violations) == nv0:
+            if rec["ndiff"] and len(self.suspects) == nv0:
                 self.viol("C15:server:%s:cut-dependence" % st.hclass, "hostile stream handled differently under %d of %d segmentations" % (rec["ndiff"], rec["nseg"]),
                           st, rec, mode, flavor)
         elif st.kind == "f":
             self.count("flood_cases_judged")
-            self.ctx.obs_max("flood_peak_live_bytes_max", rec["peak"])
+            if not self.quiet:
+                self.ctx.obs_max("flood_peak_live_bytes_max", rec["peak"])
             if ref["closed"]:
                 self.count("flood_cut_off_by_close")
             if extras:
@@ -330,7 +338,7 @@ class Judge:
     # ---- client
     def client(self, st, rec, mode, flavor, req_timeout_ms):
         ref = rec["ref"]
-        nv0 = len(self.ctx.violations)
+        nv0 = len(self.suspects)
         cap = g.CLIENT_CAP + g.CLIENT_TRANSPORT_CAP   # both configured caps sit on the receive path
         limit = 3 * cap + MIB + 8 * len(st.wire)
         if rec["peak"] > limit:
@@ -361,14 +369,14 @@ class Judge:
                     self.viol("C15:client:%s:%s" % (cls, bsym), "body: expected %d bytes sha1 %s, Response.body has %d bytes sha1 %s (first bytes %s)"
                               % (e["body_len"], e["body_sha"][:12], ref["bl"], ref["bs"][:12], ref["bx"][:64]), st, rec, mode, flavor, expected=e)
             if rec["ndiff"]:
-                if len(self.ctx.violations) == nv0:
+                if len(self.suspects) == nv0:
                     self.viol("C15:client:%s:cut-dependence" % cls, "%d of %d segmentations of the same valid response produced a different Response than the unsegmented stream"
                               % (rec["ndiff"], rec["nseg"]), st, rec, mode, flavor, expected=e)
                 else:
                     self.count("cut_dependence_on_already_violating_case")
         elif st.kind in ("h", "f"):
             self.count("hostile_cases_judged" if st.kind == "h" else "flood_cases_judged")
-            if st.kind == "f":
+            if st.kind == "f" and not self.quiet:
                 self.ctx.obs_max("flood_peak_live_bytes_max", rec["peak"])
                 self.ctx.obs_max("client_flood_bytes_sent_before_abort_max", ref.get("sent", 0))
             if ref["ok"]:
@@ -382,7 +390,7 @@ class Judge:
                               % (why, ref["st"], ref["bl"], ref["bx"][:40]), st, rec, mode, flavor)
             else:
                 self.count("hostile_rejected")
-            if rec["ndiff"] and len(self.ctx.violations) == nv0:
+            if rec["ndiff"] and len(self.suspects) == nv0:
                 self.viol("C15:client:%s:cut-dependence" % st.hclass, "hostile response handled differently (returned vs. rejected) under %d of %d segmentations" % (rec["ndiff"], rec["nseg"]),
                           st, rec, mode, flavor)
 
@@ -406,6 +414,10 @@ def plan(ctx, bins, corp, priv_bins):
         sh_hang = [s for s in corp["sh"] if s.hang_risk]
         slow = 1 if fl == "plain" else 2
         inproc_extra = ["--wait-ms", 250 * slow, "--long-wait-ms", 2000 * slow, "--cpu-limit-ms", 4000 * slow]
+        if os.environ.get("C15_TEST_TINY_WAITS"):
+            # self-test of the confirmation phase: first-pass bounds so small that spurious
+            # "did not happen in time" suspects are certain; the check must still exit 0
+            inproc_extra = ["--wait-ms", 1, "--long-wait-ms", 1, "--grace-ms", 0, "--long-grace-ms", 0, "--cpu-limit-ms", 4000 * slow]
         # server, in process: every single cut of every valid stream
         shards += split_shards(fl, "server-inproc", sv, "sv", 14 if fl == "plain" else 10, inproc_extra)
         shards += split_shards(fl, "server-inproc", sh_safe + sm, "shm", 8, inproc_extra)
@@ -443,6 +455,103 @@ def plan(ctx, bins, corp, priv_bins):
             sh.priv = True
             shards.append(sh)
     return shards, hang_shards, req_to
+
+
+GENEROUS = {
+    # bounds of the isolated confirmation run: decided by the logical conditions (sentinel request
+    # served / EOF on the primed socket / Response returned); these limits are only watchdogs
+    "server-inproc": ["--wait-ms", 20000, "--long-wait-ms", 30000, "--grace-ms", 1500, "--long-grace-ms", 3000, "--cpu-limit-ms", 12000],
+    "server-socket": ["--wait-ms", 20000, "--long-wait-ms", 30000, "--grace-ms", 1500, "--long-grace-ms", 3000, "--pace-us", 2000, "--probe-ms", 30000],
+    "client-socket": ["--req-timeout-ms", 30000, "--pace-us", 2000, "--cpu-limit-ms", 12000],
+    "client-inproc": ["--cpu-limit-ms", 12000],
+}
+
+
+def isolation_variant(st, rec):
+    """the same stream with only the segmentations the verdict rests on: the unsegmented reference
+    plus the cuts of the recorded differing observations."""
+    s2 = g.Stream(st.id, st.side, st.kind)
+    s2.__dict__.update(st.__dict__)
+    items = []
+    if rec is not None:
+        multi = ["," .join(map(str, d["cuts"])) for d in rec.get("diffs", []) if d.get("cuts")]
+        zs = [str(d["z"]) for d in rec.get("diffs", []) if d.get("z")]
+        if multi:
+            items.append("X:" + "|".join(multi))
+        if zs:
+            items.append("Z:" + ",".join(zs))
+    s2.segspec = ";".join(items)
+    return s2
+
+
+def confirm_suspects(ctx, judge, binary_of, req_to):
+    """Every first-pass verdict is a suspect: many of them are 'X did not happen within a bound'
+    observations taken on a shared, loaded machine. Representatives of each suspect key are re-run
+    alone, in a fresh process, few at a time, with generous bounds; the key is reported only if the
+    isolated run yields the same key again. Not reproduced -> counted, not reported."""
+    by_key = {}
+    for sp in judge.suspects:
+        by_key.setdefault(sp["key"], []).append(sp)
+    jobs, plan_ = [], {}
+    for key, sps in by_key.items():
+        if all(sp["confirmed"] for sp in sps):
+            continue
+        cands = [sp for sp in sps if not sp["confirmed"] and sp["rec"] is not None]
+        step = max(1, len(cands) // 4)
+        reps = cands[::step][:4]
+        plan_[key] = reps
+        for i, sp in enumerate(reps):
+            def job(key=key, sp=sp, i=i):
+                st = isolation_variant(sp["st"], sp["rec"])
+                iso = Shard(sp["flavor"], sp["mode"], [st], "confirm-%s-%d" % (vf.h64(key), i), GENEROUS.get(sp["mode"], []), 600)
+                class _S: pass
+                tmp = _S(); tmp.flavor = sp["flavor"]; tmp.priv = (sp["mode"] == "client-inproc")
+                run_shard(ctx, binary_of(tmp), iso)
+                j2 = Judge(ctx, quiet=True)
+                rec2 = iso.records.get(st.id)
+                if rec2 is not None:
+                    if sp["mode"].startswith("server"):
+                        j2.server(sp["st"], rec2, sp["mode"], sp["flavor"])
+                    else:
+                        j2.client(sp["st"], rec2, sp["mode"], sp["flavor"], 30000)
+                again = [x for x in j2.suspects if x["key"] == key]
+                # a hang / crash in the confirmation run is a reproduction of nothing but itself: surface it
+                return key, sp, again, iso
+            jobs.append(job)
+    results = vf.run_many(ctx, jobs, workers=4) if jobs else []
+    reproduced = {}
+    for key, sp, again, iso in results:
+        ctx.obs("suspect_verdicts_rerun_in_isolation")
+        for rr in iso.rrs:
+            ctx.ingest(rr, where="(confirmation run %s %s)" % (sp["mode"], sp["flavor"]))
+        for ev in iso.events:
+            ctx.inconcl("confirmation run of %s (%s %s %s) ended with %s: %s" % (key, sp["mode"], sp["flavor"], sp["st"].id, ev["kind"], str(ev["detail"])[:300]))
+        if again:
+            reproduced.setdefault(key, []).append((sp, again[0]))
+    for key, sps in by_key.items():
+        if all(sp["confirmed"] for sp in sps):
+            for sp in sps:
+                ctx.violation(key, sp["what"], sp["detail"])
+            continue
+        if key in reproduced:
+            ctx.obs("suspect_keys_reproduced_in_isolation")
+            rep_ids = {id(sp) for sp, _ in reproduced[key]}
+            for sp, ag in reproduced[key]:
+                d = dict(sp["detail"])
+                d["isolated_rerun"] = dict(what=ag["what"], observed=ag["detail"].get("observed"), diffs=ag["detail"].get("diffs"))
+                ctx.violation(key, sp["what"] + " [reproduced alone in a fresh process with generous bounds]", d)
+            for sp in sps:
+                if id(sp) not in rep_ids:
+                    ctx.violation(key, sp["what"], sp["detail"])
+        else:
+            for sp in sps:
+                if sp["confirmed"]:
+                    ctx.violation(key, sp["what"], sp["detail"])
+            sps = [sp for sp in sps if not sp["confirmed"]]
+            ctx.obs("suspect_verdicts_not_reproduced_in_isolation", len(sps))
+            ctx.extra.setdefault("suspects_not_reproduced", []).append(
+                dict(key=key, cases=len(sps), rerun=len(plan_.get(key, [])), first=dict(what=sps[0]["what"][:300], stream=sps[0]["st"].id,
+                     mode=sps[0]["mode"], flavor=sps[0]["flavor"], note=sps[0]["st"].note)))
 
 
 def run(ctx):
@@ -497,7 +606,7 @@ def run(ctx):
     # watchdog / crash events: re-run that case once, alone; only a reproduced event is a violation
     def isolated(sh, ev):
         st = next(s for s in sh.streams if s.id == ev["id"])
-        iso = Shard(sh.flavor, sh.mode, [st], "iso-%s-%s-%s" % (sh.mode, sh.flavor, st.id), sh.extra, 300)
+        iso = Shard(sh.flavor, sh.mode, [st], "iso-%s-%s-%s" % (sh.mode, sh.flavor, st.id), GENEROUS.get(sh.mode, sh.extra), 900)
         if getattr(sh, "priv", False):
             iso.priv = True
         run_shard(ctx, binary_of(sh), iso)
@@ -514,17 +623,22 @@ def run(ctx):
                 pass  # sanitizer reports of the first run were ingested already
         if again:
             ctx.obs("watchdog_or_crash_events_reproduced_in_isolation")
-            if ev["kind"] == "hang":
+            if ev["kind"] == "hang" and again[0]["detail"].get("probe") and not again[0]["detail"].get("spinning"):
+                # a fresh connection was not served within the (generous) bound, but the process was
+                # not burning CPU meanwhile: slow machine, not an endless loop
+                ctx.obs("probe_timeouts_without_cpu_burn")
+                ctx.inconcl("%s %s case %s: fresh connection not served within the generous bound twice, without the I/O thread spinning" % (sh.mode, sh.flavor, st.id))
+            elif ev["kind"] == "hang":
                 d = again[0]["detail"]
                 judge.viol("C15:%s:%s:io-thread-hang" % (side, fam),
                            "%s: a single data-callback / framing call did not return: %s ms CPU in one call on a %d-byte stream (%s), reproduced in an isolated process%s"
                            % (sh.mode, d.get("cpu_ms"), len(st.wire), st.note or cls, "; fresh connections are no longer served" if d.get("probe") else ""),
-                           st, None, sh.mode, sh.flavor, hang=d, first=ev["detail"])
+                           st, None, sh.mode, sh.flavor, hang=d, first=ev["detail"], confirmed=True)
             elif ev["kind"] == "crash":
                 judge.viol("C15:%s:%s:process-crash" % (side, fam), "%s: the process died while handling the stream (rc=%s), reproduced in isolation: %s"
-                           % (sh.mode, again[0]["detail"].get("rc"), again[0]["detail"].get("stderr", "")[-300:]), st, None, sh.mode, sh.flavor, crash=again[0]["detail"])
+                           % (sh.mode, again[0]["detail"].get("rc"), again[0]["detail"].get("stderr", "")[-300:]), st, None, sh.mode, sh.flavor, crash=again[0]["detail"], confirmed=True)
             else:
-                judge.viol("C15:%s:%s:call-never-returns" % (side, fam), "%s: process watchdog fired twice on this case" % sh.mode, st, None, sh.mode, sh.flavor)
+                judge.viol("C15:%s:%s:call-never-returns" % (side, fam), "%s: process watchdog fired twice on this case" % sh.mode, st, None, sh.mode, sh.flavor, confirmed=True)
         else:
             ctx.obs("watchdog_or_crash_events_not_reproduced")
             if st.id in iso.records:
@@ -560,6 +674,8 @@ def run(ctx):
                 judge.server(st, rec, sh.mode, sh.flavor)
             else:
                 judge.client(st, rec, sh.mode, sh.flavor, req_to)
+
+    confirm_suspects(ctx, judge, binary_of, req_to)
 
     ctx.rule = ("stream = generated message list (method/status, header set with OWS/obs-text/case variants, body 0..cap, framing none/"
                 "Content-Length/chunked incl. extensions, trailers, leading zeros/close-delimited, interim 1xx, surplus bytes, pipelines of 1-8) "
@@ -616,7 +732,7 @@ def replay(ctx, path):
     elif mode not in ("server-inproc", "client-inproc"):
         st = socket_variant(st, random.Random(ctx.seed + 99), 5, [1] if mode == "server-socket" else []) if st.kind != "f" else st
     binary = vf.build("c15_http", flavor) if mode != "client-inproc" else vf.build("c15_http_priv", flavor, extra_flags=priv_flags())
-    sh = Shard(flavor, mode, [st], "replay", ["--req-timeout-ms", 8000] if mode == "client-socket" else [], 300)
+    sh = Shard(flavor, mode, [st], "replay", GENEROUS.get(mode, []), 900)
     if mode == "client-inproc":
         sh.priv = True
     run_shard(ctx, binary, sh)
@@ -632,4 +748,6 @@ def replay(ctx, path):
     if rec:
         ctx.case(sig=st.sig(), sample=dict(st.sample(), observed=rec["ref"]), n=rec["nseg"])
         (judge.server if mode.startswith("server") else judge.client)(*((st, rec, mode, flavor) if mode.startswith("server") else (st, rec, mode, flavor, 8000)))
+    for sp in judge.suspects:
+        ctx.violation(sp["key"], sp["what"], sp["detail"])
     print(json.dumps(dict(stream=st.sample(), record=rec, events=sh.events), indent=1, default=str)[:6000])
